@@ -151,6 +151,10 @@ func LoadEngine(repoDir string, patterns []string, contractDirs []string, prelud
 			}
 		}
 	}
+	freshCallee = func(key string) bool {
+		c := e.contracts.Fns[key]
+		return c != nil && c.Fresh
+	}
 	e.scan()
 	// sorts of Go types the prelude mentions
 	for _, gt := range e.prelude.GoTypes {
@@ -423,9 +427,31 @@ func (e *Engine) modSet(key string, con *FnContract) []string {
 	return out
 }
 
-func freshBase(v ssa.Value) bool {
+var freshCallee func(key string) bool
+
+func freshBase(v ssa.Value) bool { return freshBaseD(v, 0) }
+
+func freshBaseD(v ssa.Value, depth int) bool {
+	if depth > 6 {
+		return false
+	}
 	for {
 		switch x := v.(type) {
+		case *ssa.Phi:
+			for _, e := range x.Edges {
+				if c, ok := e.(*ssa.Const); ok && c.Value == nil {
+					continue // nil
+				}
+				if e == ssa.Value(x) {
+					continue
+				}
+				if !freshBaseD(e, depth+1) {
+					return false
+				}
+			}
+			return true
+		case *ssa.Extract:
+			v = x.Tuple
 		case *ssa.Alloc, *ssa.MakeSlice, *ssa.MakeMap, *ssa.Convert:
 			return true
 		case *ssa.FieldAddr:
@@ -436,6 +462,10 @@ func freshBase(v ssa.Value) bool {
 			v = x.X
 		case *ssa.Call:
 			if b, ok := x.Call.Value.(*ssa.Builtin); ok && b.Name() == "append" {
+				return true
+			}
+			// results of callees whose contract says `fresh`
+			if key, _, _ := calleeKey(&x.Call); key != "" && freshCallee != nil && freshCallee(key) {
 				return true
 			}
 			return false
